@@ -32,7 +32,7 @@ PY_ENC = {"utf-8": "utf-8", "latin-1": "latin-1", "utf-16": "utf-16"}
 
 # ----------------------------------------------------------------------------------------------- model-level pipeline
 
-def sim_read(fmt, node, v4=True, gf_split=False, is_root=True):
+def sim_read(fmt, node, v4=True, gf_split=False, is_root=True, sep="-"):
     """what the reader of `fmt` delivers for a file-level model node"""
     new = {}
     if M.is_tok(node):
@@ -44,7 +44,7 @@ def sim_read(fmt, node, v4=True, gf_split=False, is_root=True):
         else:
             new.update(e="--", m="--", lem=None)
     else:
-        new = {"l": node["l"], "c": [sim_read(fmt, c, v4, gf_split, False) for c in node["c"]]}
+        new = {"l": node["l"], "c": [sim_read(fmt, c, v4, gf_split, False, sep) for c in node["c"]]}
         if fmt in ("export", "tigerxml"):
             new["e"] = node.get("e") or "--"
             new["m"] = (node.get("m") or "--") if fmt == "export" else "--"
@@ -57,15 +57,15 @@ def sim_read(fmt, node, v4=True, gf_split=False, is_root=True):
                 new["l"] = "VROOT"
     if gf_split and not (is_root and fmt == "export"):
         key = "p" if M.is_tok(node) else "l"
-        label, gf = split_gf(new[key])
+        label, gf = split_gf(new[key], sep)
         new[key] = label
         new["e"] = gf
     return new
 
 
-def split_gf(label):
-    """labels in this check are CAT or CAT-GF with plain categories"""
-    idx = label.find("-")
+def split_gf(label, sep="-"):
+    """labels in this check are CAT or CAT<sep>GF with plain categories"""
+    idx = label.find(sep)
     if 0 < idx < len(label) - 1:
         return label[:idx], label[idx + 1:]
     return label, "--"
@@ -81,7 +81,7 @@ def sim_write(fmt, node, opts, is_root=True):
         if paren:
             edge = CT.replace_parens(edge)
         if "gf" in opts and "gf_terminals" in opts and not edge.startswith("-") and fmt != "tigerxml":
-            label += "-" + edge
+            label += sep_of(opts) + edge
         new = {"w": word, "p": label, "n": node["n"]}
         if fmt in ("export", "tigerxml"):
             new["e"] = node.get("e") if node.get("e") is not None else "--"
@@ -92,7 +92,7 @@ def sim_write(fmt, node, opts, is_root=True):
     label = node["l"]
     edge = node.get("e") if node.get("e") is not None else "--"
     if "gf" in opts and not edge.startswith("-") and fmt != "tigerxml":
-        label += "-" + edge
+        label += sep_of(opts) + edge
     if is_root and paren and "brackets_emptyroot" in opts:
         label = ""
     new = {"l": label, "c": [sim_write(fmt, c, opts, False) for c in node["c"]]}
@@ -101,6 +101,10 @@ def sim_write(fmt, node, opts, is_root=True):
         if fmt == "export":
             new["m"] = node.get("m") if node.get("m") is not None else "--"
     return new
+
+
+def sep_of(opts):
+    return "#" if "gf_separator:#" in opts else "-"
 
 
 def comparable(fmt, node, v4=False):
@@ -247,10 +251,10 @@ def check(case):
         if dfmt != "terminals" and third and not (third == "brackets" and any(M.tree_gapdeg(t["root"]) > 0 for t in trees)):
             cprefix = "C03/to-%s-then-to-%s" % (dfmt, third)
             cfile = os.path.join(tmpdir, "third." + third)
-            sthird = ["quiet"] + (["gf_split"] if "gf" in dopt_set else [])
+            sthird = ["quiet"] + (["gf_split"] + (["gf_separator:#"] if "gf_separator:#" in dopt_set else []) if "gf" in dopt_set else [])
             copts = ["export_four"] if third == "export" else []
             convert(cprefix, dest, cfile, dfmt, third, denc, "utf-8", sthird, copts, sub)
-            mem_b = [sim_read(dfmt, e, v4=out_v4, gf_split="gf" in dopt_set) for e in expected]
+            mem_b = [sim_read(dfmt, e, v4=out_v4, gf_split="gf" in dopt_set, sep=sep_of(dopt_set)) for e in expected]
             for m2 in mem_b:
                 if dfmt in ("brackets", "discobrackets") and "brackets_emptyroot" in dopt_set:
                     m2["l"] = "VROOT"
@@ -268,12 +272,14 @@ def check(case):
             sback = []
             if "gf" in dopt_set:
                 sback.append("gf_split")
+                if "gf_separator:#" in dopt_set:
+                    sback.append("gf_separator:#")
             if sfmt == "export" and v4:
                 bopts.append("export_four")
             if sfmt == "brackets" and any(M.tree_gapdeg(t["root"]) > 0 for t in trees):
                 return True
             convert(bprefix, dest, back, dfmt, sfmt, denc, senc, ["quiet"] + sback, bopts, sub)
-            mem2 = [sim_read(dfmt, e, v4=out_v4, gf_split="gf" in dopt_set) for e in expected]
+            mem2 = [sim_read(dfmt, e, v4=out_v4, gf_split="gf" in dopt_set, sep=sep_of(dopt_set)) for e in expected]
             for m2 in mem2:
                 if dfmt in ("brackets", "discobrackets") and "brackets_emptyroot" in dopt_set:
                     m2["l"] = "VROOT"
@@ -340,6 +346,8 @@ def conv_case(draw, max_tokens, max_sents, sub_fraction):
         dopts.append("gf")
         if draw(st.booleans()):
             dopts.append("gf_terminals")
+        if draw(st.integers(0, 2)) == 0:
+            dopts.append("gf_separator:#")
     if dfmt in ("brackets", "discobrackets") and draw(st.integers(0, 3)) == 0:
         dopts.append("brackets_emptyroot")
     return {"src": sfmt, "dest": dfmt, "src_enc": senc, "dest_enc": denc, "trees": trees, "v4": draw(st.booleans()),
